@@ -5,6 +5,7 @@ from harness import gen_objects as G
 from harness import shims
 from harness.impl_history import (impl_history_op, call_table, is_export, isolation_mode, cold, FLAG_SETTERS,
                                   CHROMOSOME_LEVEL)
+from harness import impl_operands as O
 
 ID = "C10"
 LEAN_MODULE = "BioCantor.Props.C10"
@@ -14,7 +15,7 @@ SPEC_DRIVER = "drivers/SpecC10.lean"
 DRIVER_MODULES = ["BioCantor.Driver.Main", "BioCantor.Driver.Cache"]
 SPEC_DRIVER_MODULES = ["BioCantor.Driver.Main", "BioCantor.Driver.SpecCache"]
 GEN_NEEDS = ["parentCacheSize", "PARENT_CACHE_SIZE"]
-MODEL_OPS = {"lru", "plru", "memo", "lazyloc", "pstrand", "cdshist", "merge"}
+MODEL_OPS = {"lru", "plru", "memo", "lazyloc", "pstrand", "cdshist", "merge", "export"}
 ERR_CLASS = True
 RULE = ("(a) cache discipline: every key sequence over <= 3 keys of length <= 6 for capacities 0..3 (exhaustive), random "
         "sequences with capacity 1..8, per-object memo tables with 3 objects, and the REAL Parent cache driven past its "
@@ -31,22 +32,48 @@ RULE = ("(a) cache discipline: every key sequence over <= 3 keys of length <= 6 
         "(primary) CDS (3 cut sides x 2 spellings x 4 kinds); 60% of those read the flag-setting accessors "
         "(num_chunk_relative_codons, chunk_relative_codon_locations) FIRST and then every chromosome-level / object-level "
         "question (num_codons, chromosome_codon_locations, translate, extract_sequence, has_valid_stop, to_dict, guid, ...). "
+        "(e) operations WITH ARGUMENTS (`warm`): every entry of the operation table of a kind (the whole call table + "
+        "reset_parent onto a parent with the same id but other bases / another id / the chromosome, reset_strand x3, "
+        "shift_position, extend_*, blocks[i], set operations and relations in BOTH operand orders, slicing, append, "
+        "reverse_complement chains, liftover / from_dict onto other bases, from_location, Parent(...) over the object) is "
+        "applied to a cold fresh operand and to an operand that — and/or whose arguments — was first asked every "
+        "argument-less question; the RESULT (elements of list results too) is asked every public property / "
+        "argument-less method incl. extract_sequence, str, hash, len; digests of the answer records must coincide and "
+        "the snapshot of operand + arguments must equal the pristine one; 10 kinds x 4 modes + recipes with inherited "
+        "qualifier keys + chunk-cut recipes, locations on 3 seeds per run; (f) arguments are operands (`args`): every call "
+        "taking dict / list / set / object arguments (export_qualifiers / to_gff / _merge_qualifiers with parent qualifiers "
+        "that ALREADY contain every key of BioCantorQualifiers the child lacks, a key the child has, both, or nothing; "
+        "constructors with caller-held lists / dicts; from_dict; intersect(new_qualifiers); query_by_* with lists and sets; "
+        "to_bed12(rgb); set operations; liftover) — deep snapshot of arguments and receiver before/after, result of a "
+        "second identical call and of a fresh twin, mutable containers shared between result and arguments / receiver; "
+        "(g) generator-returning GFF3 exports (`lazy`) rendered row by row vs after exhaustion vs again vs on twins, on "
+        "recipes whose parent level carries the keys the children add identifiers under (>= 2 coding transcripts with "
+        "distinct ids / protein ids / products); (h) `export`: CDSInterval.export_qualifiers(parent_qualifiers) with own / "
+        "parent dictionaries over {7, protein_id, product} (exhaustive) — result, own and ARGUMENT read back. "
         "non-trivial = a history with >= 20 calls of which >= 1 is memoised/lazy and that contains a cache filler, or a "
-        "cache-discipline line in which an eviction happens; distinct = distinct lines")
+        "cache-discipline line in which an eviction happens, a warm line in which >= 1 derived object was questioned, an "
+        "args line whose call returned, a lazy line with >= 1 row; distinct = distinct lines")
 EXHAUSTIVE_NOTE = ("lru: all key sequences of length 1..6 over 3 keys x capacity 0..3; cdshist: all words of length <= 4 (<= 3 on "
                    "two of the chromosome layouts) over {c,n,e,v,N} (list codons, num_chunk_relative_codons, extract_sequence, "
                    "has_valid_stop, num_codons) on 4 chromosome-parented CDS layouts and 6 layouts on a sequence chunk that CUTS "
                    "the CDS (low / high / both sides, both strands, 1-3 exons); merge: all own/other dictionaries over 2 keys x "
                    "value subsets of {1,2}; hist pair sweep: on chunk-cut CDS / transcript / gene recipes one accessor first, then "
-                   "every argument-less question")
+                   "every argument-less question; export: all own dictionaries over {7, protein_id} x parent dictionaries over "
+                   "{7, protein_id, product} x 6 identifier sets; warm / args: EVERY entry of the operation / call tables of "
+                   "every kind x mode (enum spelling) at least once per run")
 TRUSTED = ["Model/Cache.lean is hand-written; its LRU discipline is tied to CPython's functools.lru_cache, to methodtools and "
            "to the real Parent cache by this run's correspondence (hit/miss/eviction patterns)",
            "Gen.parentCacheSize regenerated from parent/parent.py",
-           "harness/impl_history.py canonicalisation of answers; harness/shims.py (gene.* imports io.*)"]
+           "harness/impl_history.py canonicalisation of answers; harness/shims.py (gene.* imports io.*)",
+           "harness/impl_operands.py: sha1 digests of canonical answer records (warm / args / lazy lines); the spec driver "
+           "judges equality of the recorded digests (Spec.Cache.okWarm / okArgs / okLazy)"]
 ASSUMPTIONS = ["the memoised Python functions are pure functions of the constructor data (established by the other "
                "properties' models; sampled here by the twin comparison)",
                "hash()/== of cache keys are deterministic within a process (str hashing is salted per process only)",
-               "T4 takes the extensional equality of the two extract_sequence paths as a hypothesis (C05's theorem)"]
+               "T4 takes the extensional equality of the two extract_sequence paths as a hypothesis (C05's theorem)",
+               "T6 is about operations that end in a constructor call on data computed from the operands' constructor data "
+               "(Model.Cache §6); that each real operation has this shape is sampled by the `warm` lines",
+               "warm / args / lazy lines use recipes that spell sequence types as enum members (spelling = F-C10c, hist lines)"]
 
 KINDMODES = [f"{k}.{m}.{sp}" for sp in "es" for k in G.KINDS for m in G.MODES]
 # sequence chunk that CUTS the (primary) CDS on the low / high coordinate side or both (5' or 3' by strand)
@@ -63,6 +90,14 @@ def impl(line):
 
 def nontrivial(line, ans):
     t = line.split()
+    if t[0] == "warm":          # at least one derived OBJECT was asked the full question list
+        m = [x for x in ans.split() if x.startswith("objs=")]
+        return line if m and int(m[0][5:]) > 0 else None
+    if t[0] == "args":          # the call returned (did not raise) on the object and on the twin
+        return line if ans.startswith("ok ") else None
+    if t[0] == "lazy":          # at least one row was exported
+        a = ans.split()
+        return line if len(a) > 2 and not a[2].startswith("0:") else None
     if t[0] == "hist":
         calls = [x for x in t[3:] if not _is_filler(x)]
         return line if len(calls) >= 20 and len(calls) < len(t) - 3 else None
@@ -271,6 +306,30 @@ def merge_cases(run):
         yield f"merge {_qd(rd())} {_qd(rd())}"
 
 
+def export_cases(run):
+    """`CDSInterval.export_qualifiers(parent_qualifiers)`: own / parent dictionaries over the keys {7, protein_id, product}
+    (exhaustive over small value sets) x which identifiers the CDS carries; the ARGUMENT is read back after the call"""
+    vals_own = [[1], [2], [1, 2]]
+    vals_other = [[1], [1, 3]]
+
+    def dicts(keys, vals):
+        out = [[]]
+        for k in keys:
+            out = [d + e for d in out for e in [[]] + [[(k, v)] for v in vals]]
+        return out
+    for own in dicts([7, 100], vals_own):
+        for other in dicts([7, 100, 101], vals_other):
+            for ids in ([], [(100, 1)], [(100, 4)], [(101, 5)], [(100, 4), (101, 5)], [(100, 1), (101, 3)]):
+                yield f"export {_qd(own)} {_qd(other)} {len(ids)}" + "".join(f" {k} {v}" for k, v in ids)
+    rng = run.rng
+    for _ in range(100 if run.tier == "quick" else 3000):
+        def rd():
+            keys = rng.sample([1, 2, 3, 100, 101], rng.randint(0, 4))
+            return [(k, rng.sample(range(1, 7), rng.randint(1, 4))) for k in keys]
+        ids = [(k, rng.randint(1, 8)) for k in (100, 101) if rng.random() < 0.7]
+        yield f"export {_qd(rd())} {_qd(rd())} {len(ids)}" + "".join(f" {k} {v}" for k, v in ids)
+
+
 _TABLE_CACHE = {}
 
 
@@ -405,10 +464,97 @@ def hist_cases(run):
             yield f"hist {km} {seed} " + " ".join(part + [f"P{cap + 5}"] + part[::-1])
 
 
+# ----------------------------------------------------------------------------------------------
+# operations with arguments: warm vs cold operands, arguments unchanged, lazy rendering
+
+INH_KINDMODES = [f"{k}.{m}.e.inh" for k in G.INHERIT_KINDS for m in ("chrom", "chunk")]
+OPS_PER_LINE = 16
+_OPS_CACHE = {}
+
+
+def ops_for(kindmode, which):
+    """tokens of the operation table (`warm`) / of the calls with container arguments (`args`) of a kind"""
+    key = (".".join(kindmode.split(".")[:3]), which)
+    if key not in _OPS_CACHE:
+        kind, mode, sp = key[0].split(".")
+        r = G.make(kind, random.Random(0), mode, sp)
+        o = r.build()
+        _OPS_CACHE[key] = sorted(O.full_table(r, o) if which == "warm" else O.arg_table(r, o))
+    return _OPS_CACHE[key]
+
+
+def _warm_failed(ans):
+    a = ans.split()
+    if a[:1] != ["ok"] or "snap" not in a:
+        return True
+    n = int(a[1])
+    i = a.index("snap")
+    return any(a[2 + 3 * j + 1] != a[2 + 3 * j + 2] for j in range(n)) or not (a[i + 1] == a[i + 2] == a[i + 3])
+
+
+def operand_cases(run):
+    rng = run.rng
+    quick = run.tier == "quick"
+    loc_kinds = ("single", "compound")
+    kms = [f"{k}.{m}.e" for k in G.KINDS for m in G.MODES]
+    # (a) every operation of the table on cold vs warm operands ------------------------------------------------
+    for km in kms + INH_KINDMODES + [f"{k}.chunk.e.both" for k in G.CUT_KINDS]:
+        kind = km.split(".")[0]
+        ops = ops_for(km, "warm")
+        plans = [("both", (3 if kind in loc_kinds else 1) if quick else 25)]
+        if kind in loc_kinds + ("sequence", "parent") and len(km.split(".")) == 3:
+            plans += [("self", 1 if quick else 10), ("args", 1 if quick else 10)]
+        for who, n in plans:
+            for _ in range(n):
+                seed = rng.randint(0, 10 ** 6)
+                order = list(ops)
+                rng.shuffle(order)
+                for i in range(0, len(order), OPS_PER_LINE):
+                    run.count("warm:" + kind)
+                    run.count("warm-who:" + who)
+                    yield f"warm {km} {seed} {who} " + " ".join(order[i:i + OPS_PER_LINE])
+    # (b) every call with dict / list / set / object arguments ---------------------------------------------------
+    for km in kms + INH_KINDMODES:
+        kind = km.split(".")[0]
+        calls = ops_for(km, "args")
+        for _ in range((2 if quick else 30) if calls else 0):
+            seed = rng.randint(0, 10 ** 6)
+            for call in calls:
+                run.count("args:" + kind)
+                yield f"args {km} {seed} {call}"
+    # (c) generator-returning exports: rendered while iterating vs afterwards ---------------------------------------
+    for km in [k for k in kms if k.split(".")[0] in G.INHERIT_KINDS] + INH_KINDMODES:
+        kind = km.split(".")[0]
+        inh = km.endswith(".inh")
+        for _ in range((3 if inh else 1) if quick else (40 if inh else 15)):
+            seed = rng.randint(0, 10 ** 6)
+            for variant in ("plain", "chunk") + (("pq",) if kind in ("cds", "transcript", "feature") else ()):
+                run.count("lazy:" + kind + (".inh" if inh else ""))
+                yield f"lazy {km} {seed} {variant}"
+    # histories on the recipes whose parent level carries the exporters' keys
+    from inscripta.biocantor.parent import parent as pm
+    for km in INH_KINDMODES:
+        for _ in range(2 if quick else 40):
+            seed = rng.randint(0, 10 ** 6)
+            h, flavour = history(rng, km, pm.PARENT_CACHE_SIZE, flavour=rng.choice(["exports", "mixed", "repeat"]))
+            run.count("hist-inh:" + km.split(".")[0])
+            yield f"hist {km} {seed} " + " ".join(h)
+
+
 def shrink(failure, mod=None):
     """drop history tokens while the real code still gives a digest of the same families"""
     line = failure["line"]
     t = line.split()
+    if t[0] == "warm" and len(t) > 5:
+        a = failure["impl"].split()
+        n = int(a[1]) if a[:1] == ["ok"] and len(a) > 1 and a[1].isdigit() else 0
+        differing = [a[2 + 3 * j] for j in range(n) if a[2 + 3 * j + 1] != a[2 + 3 * j + 2]]
+        for op in differing + [x for x in t[4:] if x not in differing]:
+            small = " ".join(t[:4] + [op])
+            out = impl(small)
+            if _warm_failed(out):
+                return {"line": small, "impl": out, "model": None, "spec": failure["spec"], "shrunk_from": line}
+        return failure
     if t[0] != "hist" or not failure["impl"].startswith("ok fam="):
         return failure
     fam = failure["impl"].split()[1]
@@ -462,4 +608,6 @@ def cases(run):
     yield from lazy_cases(run)
     yield from cds_cases(run)
     yield from merge_cases(run)
+    yield from export_cases(run)
     yield from hist_cases(run)
+    yield from operand_cases(run)
